@@ -160,8 +160,8 @@ def chooseDelim (s : Str) (allowUnq allowTriple : Bool) (limit : Nat) (st : Ctr)
       else if allowTriple ∧ st.maxLine + 6 ≤ limit ∧ tripleOk 34 s then .quot3
       else .text
     else
-      if allowTriple ∧ st.thisLine + 3 < limit ∧ st.firstLine + 3 < limit ∧ tripleOk 39 s then .apos3
-      else if allowTriple ∧ st.thisLine + 3 < limit ∧ st.firstLine + 3 < limit ∧ tripleOk 34 s then .quot3
+      if allowTriple ∧ st.thisLine + 3 < limit ∧ st.firstLine + 3 ≤ limit ∧ tripleOk 39 s then .apos3
+      else if allowTriple ∧ st.thisLine + 3 < limit ∧ st.firstLine + 3 ≤ limit ∧ tripleOk 34 s then .quot3
       else .text
   else .text
 
